@@ -121,7 +121,7 @@ def kernel_cases(rng, tier):
     return cases
 
 
-def laplace_ttm(N):
+def laplace_ttm(N, shift=0.5):
     """Kronecker-sum Laplacian-like operator (+ identity): sum_k I x .. x T_k x .. x I"""
     d = len(N)
     A = None
@@ -136,13 +136,15 @@ def laplace_ttm(N):
             cores.append(T.reshape(1, n, n, 1))
         term = torchtt.TT(cores)
         A = term if A is None else A + term
-    return (A + torchtt.eye(N) * 0.5).round(1e-14)
+    return (A + torchtt.eye(N) * shift).round(1e-14) if shift else A.round(1e-14)
 
 
 def system(rng, kind, N):
     d = len(N)
     if kind == "laplace":
         A = laplace_ttm(N)
+    elif kind == "laplace0":
+        A = laplace_ttm(N, 0.0)          # the plain finite-difference Laplacian (condition number ~ n^2): slow local Krylov solves
     elif kind == "spd":
         B = torchtt.randn([(n, n) for n in N], [1] + [rng.randint(1, 2)] * (d - 1) + [1])
         A = (B.t() @ B) * (0.2 / max(float((B.t() @ B).norm()), 1e-12)) * float(np.sqrt(np.prod(N))) + torchtt.eye(N)
